@@ -312,6 +312,10 @@ class Interp:
                     f = mc.find(name, self.loader)
                     if f and f[1] == "method":
                         return BoundMethod(v, f[2])
+                    if f and f[1] == "val":
+                        return f[2]
+                    if f and f[1] == "attr":
+                        return self.class_attr(f[0], name)
             if name in ("__init__", "__new__", "__subclasses__", "__hash__", "__eq__"):
                 return Builtin(f"{v.name}.{name}", lambda it, fr, a, k, _n=name, _c=v: it.default_method(_c, _n, a, k))
             self._attr_error(v, name)
